@@ -297,7 +297,14 @@ def assert_valid_covariance(
     assert np.allclose(covariance, covariance.T)
 
     covariance_eigenvalues = np.linalg.eig(covariance)[0]
-    if np.any(covariance_eigenvalues < negative_tol):
+    # Rounding in the eigen-decomposition grows with the size and the magnitude
+    # of the matrix, so the tolerance is relative to them
+    scaled_tol = (
+        negative_tol
+        * covariance.shape[0]
+        * (1.0 + np.max(np.abs(covariance), initial=0.0))
+    )
+    if np.any(covariance_eigenvalues < scaled_tol):
         # negative definite matrix is not a valid representation of uncertainty
         raise AssertionError(
             f"Negative {str(name)}:\n{covariance}\nEigen Values: {min(covariance_eigenvalues)}\n{covariance_eigenvalues}"
